@@ -43,7 +43,7 @@ RULES = {
 }
 PROBES = ["in_requests", "data_packets", "nrdy", "erdy", "zlp", "short_packet", "full_packet", "retry_requested",
           "retry_same_sequence_no_rty", "ack_without_request", "ack_and_request", "foreign_endpoint_ack", "tx_ready_stall",
-          "request_before_data", "second_packet_after_ack", "transfers_completed", "sequence_wrap_31_to_0"]
+          "request_before_data", "second_packet_after_ack", "transfers_completed", "sequence_wrap_31_to_0", "pipelined_short_transfer_runs"]
 META = {
     "components_real": ["luna.gateware.usb.usb3.endpoints.stream.SuperSpeedStreamInEndpoint"],
     "components_stubbed": ["stream producer", "USB3 host at the TransactionPacketReceiver interface (handshakes_in)",
@@ -104,11 +104,19 @@ def gen(rng, tier, index):
             npk = rng.randint(35, 46)
             mps = cfg["mps"] = 16
         cfg["transfers"] = [{"data": bytes(rng.getrandbits(8) for _ in range(mps * npk)).hex(), "last": False}]
+        short = npk < 20 and mps >= 16 and rng.random() < 0.4
+        if short:
+            # nominal-path runs made of several pipelined SHORT transfers (word-aligned, more than one word, each ended by
+            # `last`), the next one already buffered when the host acknowledges the previous one
+            cfg["transfers"] = [{"data": bytes(rng.getrandbits(8) for _ in range(4 * rng.randint(2, mps // 4 - 1))).hex(), "last": True}
+                                for _ in range(npk)]
         cfg.update({"producer_start": 0, "producer_gaps": [0], "transfer_gap": 0, "tx_ready": [1]})
         first_delay = mps // 4 * 2 + 12
         budget = npk - 2
         while budget > 0:
             then = rng.choice(["ack_more", "ack_more", "ack_stop", "retry", "retry_same_seq"])
+            if short and then == "ack_more" and rng.random() < 0.6:
+                then = "ack_stop"            # mostly: terminating ACK (NumP=0), then a separate IN request
             if then in ("ack_more", "ack_stop"):
                 budget -= 1
             ops.append({"op": "in", "delay": (first_delay if not ops else rng.choice([0, 2, mps // 4 + 6])),
@@ -554,7 +562,12 @@ class _World:
         else:
             pr["full_packet"] += 1
         ctx = dict(zlp=dp["zlp"], single_word=bool(0 < len(dp["payload"]) <= 4), after_retry=self.awaiting_retry)
+        if self.awaiting_retry:
+            as_expected = self.last_dp is not None and dp["payload"] == self.last_dp["payload"] and dp["zlp"] == self.last_dp["zlp"]
+        else:
+            as_expected = self.delivered < len(exp) and dp["payload"] == exp[self.delivered]
         if dp["ep"] != self.ep:
+            ctx = dict(ctx, carries_expected_payload=bool(as_expected))
             return self._fail("C46.conservation", t,
                               f"data packet (zlp={dp['zlp']}) sent with tx_endpoint_number={dp['ep']}: it is not delivered to "
                               f"endpoint {self.ep}", kind="packet_for_other_endpoint", **ctx)
@@ -610,6 +623,8 @@ def run(scn):
         raise RuntimeError(f"host script did not finish (state {world.hstate}, op {world.i}/{len(scn['ops'])})")
     sig = hashlib.blake2b(repr((cfg["mps"], sorted(map(repr, world.classes)),
                                 sorted(k for k, v in probes.items() if v))).encode(), digest_size=8).hexdigest()
+    if scn["config"].get("gentle") and len(scn["config"]["transfers"]) > 1:
+        probes["pipelined_short_transfer_runs"] += 1
     faults = {"retry_request": probes["retry_requested"] + probes["retry_same_sequence_no_rty"],
               "foreign_endpoint_ack": probes["foreign_endpoint_ack"], "ready_stall": probes["tx_ready_stall"],
               "request_before_data": probes["request_before_data"]}
